@@ -136,6 +136,20 @@ pub fn fill(seed: u32, len: usize) -> Vec<u8> {
             let pat: &[u8] = b"GET / HTTP/1.1\r\nHost: example.org\r\n\r\n";
             out.iter_mut().enumerate().for_each(|(i, b)| *b = pat[i % pat.len()])
         }
+        SEED_FQDN => {
+            // an absolute host name: labels of letters, digits and hyphens joined by dots, ending in the root dot
+            let pat: &[u8] = b"proxy.example-1.com.eu.";
+            out.iter_mut().enumerate().for_each(|(i, b)| *b = pat[i % pat.len()]);
+            if len >= 2 {
+                out[len - 1] = b'.';
+                if out[len - 2] == b'.' {
+                    out[len - 2] = b'x';
+                }
+                if out[0] == b'.' {
+                    out[0] = b'p';
+                }
+            }
+        }
         SEED_COUNTED => {
             // a counted string: the first byte states how many bytes follow (ALPN wire form, DNS labels, Pascal strings)
             out.iter_mut().enumerate().for_each(|(i, b)| *b = b"http/1.1-h2-spdy/3"[i % 18]);
@@ -161,12 +175,15 @@ pub const SEED_HTTP: u32 = 0xffff_fffa;
 pub const SEED_NESTED: u32 = 0xffff_fffb;
 /// a counted string (first byte = number of bytes that follow)
 pub const SEED_COUNTED: u32 = 0xffff_fff9;
+/// an absolute host name with its trailing root dot
+pub const SEED_FQDN: u32 = 0xffff_fff7;
 
 /// A fill seed from the tape: mostly random content, but one value in four is one of the content classes
 /// (all zero / all 0xFF / ASCII letters / signature bytes) that pure random bytes never produce.
 pub fn gen_seed(t: &mut Tape) -> u32 {
-    match t.weighted(&[24, 4, 2, 2, 2, 1, 1, 1, 1]) {
+    match t.weighted(&[24, 4, 2, 2, 2, 1, 1, 1, 1, 1]) {
         8 => SEED_COUNTED,
+        9 => SEED_FQDN,
         0 => t.u32() | 1,
         1 => 0,
         2 => SEED_ONES,
